@@ -122,9 +122,23 @@ def parse_out(text):
     return _decode_err(r, out)
 
 
+def _other_entry_first(src, own):
+    """The three parsing entry points share one lexer: before the call under test, for every other input (by a hash of the
+    text), the same text is first given to the *other* entry points, whose answers are discarded.  Each call promises to
+    depend on its argument only."""
+    key = src if isinstance(src, str) else '\n'.join(src)
+    if zlib.crc32(key.encode('utf-8', 'surrogatepass')) % 2:
+        return
+    for name, fn in (('parse_triples', penman.parse_triples), ('parse', penman.parse),
+                     ('iterparse', lambda x: list(penman.iterparse(x)))):
+        if name != own:
+            guarded(fn, src if name == 'iterparse' or isinstance(src, str) else '\n'.join(src))
+
+
 def tr_parse(text=None, fn='parse', lines=None):
     t = {'kind': 'parse', 'fn': fn, 'container': 'str' if lines is None else 'seq'}
     src = text if lines is None else lines
+    _other_entry_first(src, fn)
     if lines is None:
         t['text'] = text
     else:
@@ -146,6 +160,7 @@ def tr_parse(text=None, fn='parse', lines=None):
 
 
 def tr_ptriples(text):
+    _other_entry_first(text, 'parse_triples')
     ok, r = guarded(penman.parse_triples, text)
     out = {'ok': True, 'exc': ''}
     if ok:
